@@ -252,6 +252,11 @@ def check(run, project):
                f"superfluous bytes at L{node.lineno} = look-ahead byte + rest of the iterator",
                f"surplus bytes are built from {items} in state byte={st[0]}", module=mod, node=node, func=fn.name,
                construct="bytes_remaining of " + SUPER)
+    n_super = len([c for c in walk_no_nested(fn) if isinstance(c, ast.Call) and call_name(c) == SUPER])
+    n_att = len({id(node) for node, st, expr, via in F.attach if via == SUPER})
+    run.ob("E1", n_att >= n_super >= 1, "every superfluous error carries the surplus bytes",
+           f"{n_super} constructions of {SUPER} in the pump, {n_att} of them are given the surplus bytes: the error no longer says "
+           "which bytes were left over (or cannot be built at all)", module=mod, node=fn, func=fn.name, construct="bytes_remaining of " + SUPER)
     # ---- E2 command code
     cc_defs = None
     for cls_name in (SUPER, DEPL):
